@@ -1,7 +1,7 @@
 SPECIFICATION Spec
 CONSTANTS
   MaxItems = 2
-  MaxListing = 3
+  MaxListing = 2
   PMn <- T_PMn
   POps <- T_POps
   LMn <- T_LMn
